@@ -15,7 +15,7 @@ from prosemirror.transform import Step, Transform
 
 ID = "C05"
 CORR_MODULE = "Corr.C05"
-LEVEL = "exploration"
+LEVEL = "proof"
 SHARD = 150
 
 
